@@ -10,6 +10,7 @@ import (
 	"github.com/LemoFoundationLtd/lemochain-core/common"
 	"github.com/LemoFoundationLtd/lemochain-core/common/log"
 	"github.com/LemoFoundationLtd/lemochain-core/common/subscribe"
+	"github.com/LemoFoundationLtd/lemochain-core/common/verifhook"
 	"github.com/LemoFoundationLtd/lemochain-core/metrics"
 	"github.com/LemoFoundationLtd/lemochain-core/network"
 	"github.com/LemoFoundationLtd/lemochain-core/store/protocol"
@@ -315,6 +316,7 @@ func (dp *DPoVP) FetchRemoteConfirms(startHeight, endHeight uint32, delay time.D
 
 // BatchConfirm confirm and broadcast unsigned stable blocks one by one
 func (dp *DPoVP) batchConfirmStable(startHeight, endHeight uint32) {
+	verifhook.Yield("consensus.batchConfirmStable:before-sign")
 	result := dp.confirmer.BatchConfirmStable(startHeight, endHeight)
 	for _, confirmPack := range result {
 		dp.confirmFeed.Send(confirmPack)
